@@ -235,7 +235,7 @@ var c15Ranges = core.Mon(c15, "ranges-and-reparse", func(w *core.W, c *ParseCase
 			w.Violation("ranges-and-reparse", "C15/reparse-rejected", c, obs.Canon(e), err2.Error(), fmt.Sprintf("text of node %T [%d,%d) = %q of %s does not parse on its own", e, e.Pos(), e.End(), clipS(string(sub), 100), c.Quoted()))
 			return
 		}
-		if g, x := obs.Canon(sc2.Expression), obs.Canon(e); g != x {
+		if g, x := obs.CanonValues(sc2.Expression), obs.CanonValues(e); g != x {
 			w.Violation("ranges-and-reparse", "C15/reparse-differs", c, x, g, fmt.Sprintf("text of node %T [%d,%d) = %q re-parses to a different tree", e, e.Pos(), e.End(), clipS(string(sub), 100)))
 			return
 		}
